@@ -251,6 +251,17 @@ def rule_arith(cx, tier):
                 v = _validated_int(cx, fn, du, o)
                 if v is not None:
                     guard = (v.bb, "validated-by:" + v.short.rsplit("::", 1)[-1], None)
+            # ... which says nothing about the *other* operand of an addition / subtraction / multiplication: a validated
+            # index added to an unguarded script integer (the start of a range without an end) still overflows
+            if want == "any" and len(need) == 2 and guard is not None:
+                for o in need:
+                    if _validated_int(cx, fn, du, o) is not None or _is_derived(cx, fn, du, o):
+                        continue
+                    k2 = _roots(cx, fn, o)
+                    if any((ckeys & k2) and (cb == bb or cfg.dominates(cb, bb)) and not (cdest == cond_local and cb == bb)
+                           for cb, ckeys, const, opname, cdest, lhs_keys in comps):
+                        continue
+                    guard = None
             self_fields = all(op_place(o) is not None and any(k[0] == 1 and k[1] for k in _roots(cx, fn, o)) for o in need)
             for cb, ckeys, const, opname, cdest, lhs_keys in comps:
                 if guard is not None:
